@@ -1,4 +1,5 @@
 //! vh-driver: conformance harness for the `scylla` crate (built with --cfg scylla_verif).
+mod c06;
 mod c13;
 mod c15;
 mod c18;
@@ -31,6 +32,7 @@ fn main() {
     }
     let rest = &args[2..];
     let rc = match (args[0].as_str(), args[1].as_str()) {
+        ("c06", "walk") => c06::cmd_walk(rest),
         ("c13", "run") => c13::cmd_run(rest),
         ("c15", "walk") => c15::cmd_walk(rest),
         ("c15", "random") => c15::cmd_random(rest),
